@@ -20,7 +20,7 @@ private def n (s : String) : Name := s.toList
 /-- FULL STRENGTH (FALSE on the pinned tree, kept visible): for all importer / importee module
 paths and both kinds of importer file, the emitted import designates the importee's module. -/
 def RelativeResolves : Prop :=
-  ∀ (cur ref : MPath) (cls : Name) (isInit : Bool), cur ≠ ref →
+  ∀ (cur ref : MPath) (cls : Name) (isInit : Bool), namesNonempty ref = true → cur ≠ ref →
     ∃ r, emitted cur isInit false false ref cls = some r ∧ designated cur isInit r = some ref
 
 /-- PARTIAL, all depths: it holds for every pair in which the importer is not a prefix of the
@@ -28,9 +28,9 @@ importee — i.e. excluding exactly "the importee lies below the importer". For 
 `__init__` importer that excluded case is known defect D8; for a plain-module importer it cannot
 arise in a covered file map (`descendant_implies_init_partial`). -/
 theorem relative_resolves_partial (cur ref : MPath) (cls : Name) (isInit : Bool)
-    (h : cur.isPrefixOf ref = false) :
+    (hn : namesNonempty ref = true) (h : cur.isPrefixOf ref = false) :
     ∃ r, emitted cur isInit false false ref cls = some r ∧ designated cur isInit r = some ref :=
-  emitted_designates cur ref cls isInit false false
+  emitted_designates cur ref cls isInit false false (noEmpty_of_bool hn)
     (fun hp => by rw [List.isPrefixOf_iff_prefix.mpr hp] at h; cases h) (by simp)
 
 /-- non-vacuity: sibling, cousin, ancestor and root importees, from a package file and from a plain module -/
@@ -52,7 +52,7 @@ theorem init_importer_descendant_unresolved :
 
 theorem relative_resolves_false : ¬ RelativeResolves := by
   intro h
-  obtain ⟨r, hr, hd⟩ := h [n "a", n "b"] [n "a", n "b", n "d"] (n "X") true (by decide)
+  obtain ⟨r, hr, hd⟩ := h [n "a", n "b"] [n "a", n "b", n "d"] (n "X") true (by decide) (by decide)
   have h1 := init_importer_descendant_unresolved
   rw [h1.1] at hr
   cases hr
@@ -66,18 +66,19 @@ theorem plain_importer_descendant_unresolved :
 
 /-- The root `__init__.py` is processed with `init = False` although Python treats it as a
 package file; every import written there resolves (all importees, any depth, any form). -/
-theorem relative_resolves_root (ref : MPath) (cls : Name) (exact isBase : Bool) (h : ref ≠ []) :
+theorem relative_resolves_root (ref : MPath) (cls : Name) (exact isBase : Bool)
+    (hn : namesNonempty ref = true) (h : ref ≠ []) :
     ∃ r, emitted [] false exact isBase ref cls = some r ∧ designated [] true r = some ref :=
-  emitted_designates_root ref cls exact isBase h
+  emitted_designates_root ref cls exact isBase (noEmpty_of_bool hn) h
 
 /-! ### exact imports (`--use-exact-imports`, and always for base classes) -/
 
 /-- PARTIAL: `from <dots><pkg>.<module> import Class` designates the importee's module whenever
 neither path is a prefix of the other. -/
 theorem exact_resolves_partial (cur ref : MPath) (cls : Name) (isInit exact isBase : Bool)
-    (h1 : cur.isPrefixOf ref = false) (h2 : ref.isPrefixOf cur = false) :
+    (hn : namesNonempty ref = true) (h1 : cur.isPrefixOf ref = false) (h2 : ref.isPrefixOf cur = false) :
     ∃ r, emitted cur isInit exact isBase ref cls = some r ∧ designated cur isInit r = some ref :=
-  emitted_designates cur ref cls isInit exact isBase
+  emitted_designates cur ref cls isInit exact isBase (noEmpty_of_bool hn)
     (fun hp => by rw [List.isPrefixOf_iff_prefix.mpr hp] at h1; cases h1)
     (fun _ hp => by rw [List.isPrefixOf_iff_prefix.mpr hp] at h2; cases h2)
 
@@ -177,7 +178,8 @@ theorem treatDot_clobbers_init :
 
 theorem imports_resolve_in_file_map (mods : List MPath) (hd : deepestFirst mods = true)
     (hcov : covered mods = true) (a : Assigned) (ha : a ∈ assign [] (procOrder mods))
-    (ref : MPath) (href : ref ∈ mods) (cls : Name) (exact isBase : Bool) (hne : ref ≠ a.mod)
+    (ref : MPath) (href : ref ∈ mods) (hn : namesNonempty ref = true)
+    (cls : Name) (exact isBase : Bool) (hne : ref ≠ a.mod)
     (hD8 : ¬ (a.init = true ∧ a.mod <+: ref))
     (hex : (exact || isBase) = true → ¬ ref <+: a.mod) :
     ∃ r, emitted a.mod a.init exact isBase ref cls = some r ∧
@@ -188,7 +190,7 @@ theorem imports_resolve_in_file_map (mods : List MPath) (hd : deepestFirst mods 
     rw [assignOne_mod] at hroot
     rcases assignOne_cases (parentsAfter [] l1) p with ⟨_, hk, hi⟩ | ⟨h0, _⟩ | ⟨h0, _⟩
     · rw [assignOne_mod, hroot, hk, hi]
-      exact emitted_designates_root ref cls exact isBase (by rw [assignOne_mod, hroot] at hne; exact hne)
+      exact emitted_designates_root ref cls exact isBase (noEmpty_of_bool hn) (by rw [assignOne_mod, hroot] at hne; exact hne)
     · exact absurd hroot h0
     · exact absurd hroot h0
   · have hp : (⟨ref, true⟩ : Proc) ∈ procOrder mods := mem_procFrom_of_mem href
@@ -199,8 +201,8 @@ theorem imports_resolve_in_file_map (mods : List MPath) (hd : deepestFirst mods 
     · obtain ⟨l1, p, l2, _, rfl⟩ := mem_assign ha
       rcases assignOne_cases (parentsAfter [] l1) p with ⟨h0, _⟩ | ⟨_, _, hk, hi⟩ | ⟨_, _, hk, hi⟩
       · rw [assignOne_mod] at hroot; exact absurd h0 hroot
-      · rw [hk, hi]; exact emitted_designates _ ref cls true exact isBase hpre hex
-      · rw [hk, hi]; exact emitted_designates _ ref cls false exact isBase hpre hex
+      · rw [hk, hi]; exact emitted_designates _ ref cls true exact isBase (noEmpty_of_bool hn) hpre hex
+      · rw [hk, hi]; exact emitted_designates _ ref cls false exact isBase (noEmpty_of_bool hn) hpre hex
 
 /-! ### names -/
 
